@@ -96,7 +96,7 @@ def validate(src, prop):
 def run(names, tier="quick", all_checks=False, seed=None):
     """Checks run against a scratch worktree of /repo's HEAD (VMON_REPO), so /repo itself stays untouched
     and other work can go on; the worktree is removed afterwards."""
-    wt = "/tmp/vmon-seed-worktree"
+    wt = os.environ.get("VMON_SEED_WT", "/tmp/vmon-seed-worktree")
     sh(f"git worktree remove --force {wt}", cwd=REPO)
     rc, out = sh(f"git worktree add -q --detach {wt} HEAD", cwd=REPO)
     assert rc == 0, out
@@ -108,7 +108,7 @@ def run(names, tier="quick", all_checks=False, seed=None):
 
 
 def _run(names, tier, all_checks, wt, seed=None):
-    res_path = os.path.join(VERIF, "seeded", "RESULTS.json")
+    res_path = os.environ.get("VMON_SEED_RESULTS") or os.path.join(VERIF, "seeded", "RESULTS.json")
     results = json.load(open(res_path)) if os.path.exists(res_path) else {}
     checks = [c["property_id"] for c in json.load(open(os.path.join(VERIF, "MANIFEST.json")))["checks"]]
     for d in sorted(glob.glob(os.path.join(VERIF, "seeded", "C*"))):
